@@ -43,6 +43,8 @@ Ltac not_loop x :=
   | context [transmitters_loop] => fail
   | context [comma_strings_loop] => fail
   | context [attribute_value] => fail
+  | context [str_index] => fail
+  | context [str_from] => fail
   | _ => idtac
   end.
 
@@ -117,7 +119,9 @@ Section Equiv.
     try (destruct d; simpl in *; subst; reflexivity);
     try (use_ih IH H).
   Ltac main_loop L :=
-    norm; pt_records; steps; try (rewrite L with (racc := []) by reflexivity; norm; pt_records; fsteps).
+    norm; pt_records; steps;
+    try (match goal with |- _ = match _ ?r ?s with _ => _ end => rewrite L with (racc := r) by reflexivity end;
+         norm; pt_records; fsteps).
 
   Lemma NodesDef_loop_eq : forall f d racc st, NodesDef_NodeNames d = rev racc ->
     NodesDef_parseFrom_loop1 ilh idh F f d st
@@ -155,5 +159,33 @@ Section Equiv.
     run_as MessageTransmittersDef_to_def (MessageTransmittersDef_parseFrom ilh idh F MessageTransmittersDef_zero) st
     = parse_message_transmitters ilh idh F st.
   Proof. intros. unfold MessageTransmittersDef_parseFrom, parse_message_transmitters. main_loop MessageTransmittersDef_loop_eq. Qed.
+
+  Lemma EnvironmentVariableDef_loop_eq : forall f d racc st, EnvironmentVariableDef_AccessNodes d = rev racc ->
+    EnvironmentVariableDef_parseFrom_loop1 ilh idh F f d st
+    = bind (comma_idents_loop ilh idh F f racc) (fun l => ret (EnvironmentVariableDef_set_AccessNodes d l)) st.
+  Proof.
+    induction f; intros d racc st H; [reflexivity|].
+    cbn [EnvironmentVariableDef_parseFrom_loop1 comma_idents_loop]. loop_proof d IHf H.
+  Qed.
+
+  Lemma TP_EnvironmentVariableDef_parseFrom_eq : forall st,
+    run_as EnvironmentVariableDef_to_def (EnvironmentVariableDef_parseFrom ilh idh F EnvironmentVariableDef_zero) st
+    = parse_envvar ilh idh F st.
+  Proof. intros. unfold EnvironmentVariableDef_parseFrom, parse_envvar, comma_idents. main_loop EnvironmentVariableDef_loop_eq. Qed.
+
+  Lemma AttributeDef_loop_eq : forall f d racc st, AttributeDef_EnumValues d = rev racc ->
+    AttributeDef_parseFrom_loop1 ilh idh F f d st
+    = bind (comma_strings_loop ilh idh F f racc) (fun l => ret (AttributeDef_set_EnumValues d l)) st.
+  Proof.
+    induction f; intros d racc st H; [reflexivity|].
+    cbn [AttributeDef_parseFrom_loop1 comma_strings_loop]. loop_proof d IHf H.
+  Qed.
+
+  Lemma TP_AttributeDef_parseFrom_eq : forall st,
+    run_as AttributeDef_to_def (AttributeDef_parseFrom ilh idh F AttributeDef_zero) st = parse_attribute ilh idh F st.
+  Proof. intros. unfold AttributeDef_parseFrom, parse_attribute. norm. pt_records. steps.
+    all: match goal with |- context [comma_strings_loop _ _ _ _ ?r _] =>
+           rewrite AttributeDef_loop_eq with (racc := r) by reflexivity end; norm; pt_records; fsteps.
+  Qed.
 
 End Equiv.
